@@ -429,9 +429,9 @@ func (w *worker) runItem(st *state, ii int) {
 		_, k := w.dump()
 		w.st.evals++
 		if k != st.key {
+			// The transition is still run: its in-transaction comparisons do
+			// not depend on the dump.
 			w.violation("restore:content", st, ii, fmt.Sprintf("after clearing the namespace and writing the state in one Update a fresh read transaction shows %s", k))
-			w.cur = ""
-			return
 		}
 		w.cur = k
 	}
@@ -599,7 +599,7 @@ func stateSig(ko KO, x *txrun, expM, gotM *mbucket, preKey, gotKey string) strin
 		var diffs []string
 		diffPaths(expM, gotM, "", &diffs)
 		for _, d := range diffs {
-			if !x.related(d) {
+			if !x.related(d, "") {
 				return "nested:not-independent:post-state"
 			}
 		}
@@ -793,33 +793,50 @@ func (g *global) noteNotExhaustive(s string) {
 	g.mu.Unlock()
 }
 
-// monitor turns a transaction that never returns into a violation.
+// monitor turns a transaction that never returns into a violation. When one
+// worker hangs the others hang on the same cause within moments; the smallest
+// hung transition is the one reported.
 func (g *global) monitor() {
 	for {
 		time.Sleep(200 * time.Millisecond)
+		var hung *worker
+		var hungHB *heartbeat
 		for _, w := range g.workers {
 			hb := w.hb.Load()
 			if hb == nil || time.Since(hb.since) < g.hang {
 				continue
 			}
-			it := hb.u.items[hb.item]
-			sig := "hang:" + hb.phase
-			what := "the call never returned"
-			if it.prog >= 0 {
-				ko := hb.u.kos[it.ko]
-				switch hb.phase {
-				case "probe":
-					sig = koTag(ko) + "-left-db-locked"
-					what = "BeginReadWriteTx after the transaction blocks: the writer lock was not released"
-				case "reopen":
-					sig = koTag(ko) + "-left-tx-open"
-					what = "db.Close after the transaction blocks: a transaction was left open"
-				}
+			if hung == nil || order(0, hb.st.idx, hb.item) < order(0, hungHB.st.idx, hungHB.item) {
+				hung, hungHB = w, hb
 			}
-			w.violation(sig, hb.st, hb.item, fmt.Sprintf("%s (no progress for %s in phase %q)", what, g.hang, hb.phase))
-			g.noteNotExhaustive("aborted after a hang")
-			g.finish()
 		}
+		if hung == nil {
+			continue
+		}
+		hb := hungHB
+		it := hb.u.items[hb.item]
+		sig := "hang:" + hb.phase
+		what := "the call never returned"
+		if it.prog >= 0 {
+			ko := hb.u.kos[it.ko]
+			switch {
+			case hb.phase == "probe":
+				sig = koTag(ko) + "-left-db-locked"
+				what = "BeginReadWriteTx after the transaction blocks: the writer lock was not released"
+			case hb.phase == "reopen" && ko.readonly():
+				sig = koTag(ko) + "-left-tx-open"
+				what = "db.Close after the transaction blocks: the read transaction was left open"
+			case hb.phase == "reopen":
+				sig = "close-blocks:transaction-left-open"
+				what = "db.Close blocks: an earlier transaction on this handle was left open"
+			}
+		} else if hb.phase == "reopen" {
+			sig = "close-blocks:transaction-left-open"
+			what = "db.Close blocks: an earlier transaction on this handle was left open"
+		}
+		hung.violation(sig, hb.st, hb.item, fmt.Sprintf("%s (no progress for %s in phase %q)", what, g.hang, hb.phase))
+		g.noteNotExhaustive("aborted after a hang")
+		g.finish()
 	}
 }
 
